@@ -86,6 +86,26 @@ Proof.
 Qed.
 Print Assumptions C18_real_dir_needed_refuted.
 
+(* F18f: before its repair StageReference handed a :copy of a file to shutil.copy whatever <working directory>/<name>
+   was; shutil.copy opens that name for writing, which follows a symbolic link: with p1/out.txt:link staged first,
+   p2/out.txt:copy overwrote p1/out.txt — the producer's file — and a dangling link found in the working directory
+   made the copy create the file the link names.  ([run_refs] with guard = false is the code before the repair.) *)
+Theorem C18_copy_over_link_refuted :
+  (exists d refs p, gooddir d = true /\ In p (seq_writes (run_refs true false true d [] true refs)) /\ ~ within d p /\
+                    seq_codes (run_refs true false true d [] true refs) = [(0, true); (0, true)] /\
+                    refs = [RLink "/p1/out.txt"; RCopyFile "/p2/out.txt"]) /\
+  (exists d st refs p, gooddir d = true /\ real_dir (links_of st) d = true /\
+                    In p (seq_writes (run_refs true false true d st true refs)) /\ ~ within d p /\
+                    st = [(["t"; "work"; "out.txt"], ELink ["p1"; "new.txt"])] /\ refs = [RCopyFile "/p2/out.txt"]).
+Proof.
+  split.
+  - exists ["t"; "work"], [RLink "/p1/out.txt"; RCopyFile "/p2/out.txt"], ["p1"; "out.txt"].
+    repeat split; [right; left; reflexivity | apply not_within; reflexivity].
+  - exists ["t"; "work"], [(["t"; "work"; "out.txt"], ELink ["p1"; "new.txt"])], [RCopyFile "/p2/out.txt"], ["p1"; "new.txt"].
+    repeat split; [left; reflexivity | apply not_within; reflexivity].
+Qed.
+Print Assumptions C18_copy_over_link_refuted.
+
 (* The hypothesis built into the model of the deployment — shutil.copytree is called with symlinks=False, so a link
    inside a copied source folder becomes a real directory of the instance — is necessary for C18_deploy_tree_confined /
    C18_copy_makes_no_link: were the links of the source folder re-created in the instance ([deploy_fs] with
